@@ -9,6 +9,9 @@ TRUSTED = ['real-arithmetic semantics for floats (rounding outside)', 'n, k rela
            'MIR call models listed under call_models_used', 'z3 5.1 nlsat']
 
 
+GUARD = []
+
+
 def extract(m, fname):
     """{kind: (pc, lo, hi)} of the Ok paths with the oracle abstracted by Z"""
     out = {}
@@ -18,6 +21,8 @@ def extract(m, fname):
         if p['rk'] != 'return' or not E.is_ok(p['value']):
             continue
         variant, bounds = E.interval_parts(p['value'])
+        if GUARD and not oracle_guard(GUARD[0], m, GUARD[1] + ':' + fname, p['pc'], bounds):
+            continue
         if variant != 'TwoSided':
             raise mir.Stuck('proportion interval stored as %s' % variant)
         out[p['kind']] = ([abstract_apps(c, {'Zq': Z}) for c in p['pc']], abstract_apps(bounds[0], {'Zq': Z}), abstract_apps(bounds[1], {'Zq': Z}))
@@ -33,6 +38,7 @@ def run(ctx):
     m = E.MEngine(ctx)
     if not m.ok:
         return
+    GUARD[:] = [ctx, 'C17']
     try:
         for fname, tag, lo_dom in (('ci_wilson', 'wilson', 2), ('ci_z_normal', 'wald', 10)):
             family(ctx, m, fname, tag, lo_dom)
